@@ -443,6 +443,42 @@ def judge(prep, inputs_json: dict, timeout: float, excl=()) -> dict:
                 object.__setattr__(inputs["self"], an_, _shield)
             except Exception:
                 pass
+    # at_call clauses: judged at every call of the named callee made from the unit's own frame, with the caller's locals
+    # and the callee's parameters (bound to the actual arguments) in scope - the run-time reading of the prover's obligations
+    at_call_viol = []
+    if owner is not None and "self" in inputs and getattr(c, "at_call", None):
+        import inspect as _insp2
+        for cal_, clauses_ in c.at_call.items():
+            an2_ = cal_ if (not cal_.startswith("__") or cal_.endswith("__")) else f"_{owner.__name__.lstrip('_')}{cal_}"
+            cur_ = getattr(inputs["self"], an2_, None)
+            real2_ = getattr(owner, an2_, None)
+            if cur_ is None or real2_ is None:
+                continue
+            try:
+                sig_ = _insp2.signature(real2_)
+            except (TypeError, ValueError):
+                continue
+
+            def _probe(*a, _cur=cur_, _sig=sig_, _cl=clauses_, _name=cal_, **kw):
+                fr = sys._getframe(1)
+                if fr.f_code.co_name == unit.split(".")[-1]:
+                    try:
+                        ba = _sig.bind(inputs["self"], *a, **kw)
+                        ba.apply_defaults()
+                        env_ = dict(fr.f_locals)
+                        env_.update({k_: v_ for k_, v_ in ba.arguments.items() if k_ != "self"})
+                        env_.setdefault("self", inputs["self"])
+                        for k_, r_ in enumerate(_cl):
+                            if not at_call_viol and not ctx.evaluate(r_, env_, emit_st.get("old")):
+                                at_call_viol.append((f"at_call[{_name}][{k_}]", r_,
+                                                     {n_: brief(v_) for n_, v_ in ba.arguments.items() if n_ != "self"}))
+                    except Exception:
+                        pass
+                return _cur(*a, **kw)
+            try:
+                object.__setattr__(inputs["self"], an2_, _probe)
+            except Exception:
+                pass
     # 2. call with watchdog
     args = dict(inputs)
     call = fn
@@ -498,6 +534,9 @@ def judge(prep, inputs_json: dict, timeout: float, excl=()) -> dict:
         return {"status": "violation", "kind": "raises", "exception": f"{type(raised).__module__}.{name}",
                 "detail": f"{name}: {raised}", "traceback": tb[-3:]}
     local["result"] = result
+    if at_call_viol:
+        return {"status": "violation", "kind": at_call_viol[0][0], "clause": at_call_viol[0][1],
+                "detail": "false at a call made by the unit; arguments: " + str(at_call_viol[0][2])[:300]}
     if emit_st["viol"] is not None:
         return {"status": "violation", "kind": f"at_emit[{emit_st['viol'][0]}]", "clause": emit_st["viol"][1],
                 "detail": "false when self.emit() was called: a listener observes this state"}
